@@ -3,3 +3,4 @@ import QV.Prelude
 import QV.Generated.Consts
 import QV.Generated.Tables
 import QV.Properties.C14
+import QV.Properties.C32
